@@ -114,6 +114,123 @@ theorem show_parse_units (u : Units) (hv : u.sys.valid = true) :
     · by_cases h : u.dim.time = 0 <;> simp [h]
     · by_cases h : u.dim.qty = 0 <;> simp [h]
 
+/-! ## Round trip of quantity text
+
+`pyFloat` = Python's `float(text)`, `pyRepr` = Python's `str(float)`: trusted primitives with the
+contract `float(str(x)) = x`, `str(x)` non-empty and free of blanks (checked bitwise by the harness
+on every generated double). -/
+
+structure FloatContract (pyFloat : List Char → Option Rat) (pyRepr : Rat → List Char) : Prop where
+  roundtrip : ∀ x, pyFloat (pyRepr x) = some x
+  nonempty : ∀ x, pyRepr x ≠ []
+  noBlank : ∀ x, ∀ c ∈ pyRepr x, isBlank c = false
+
+/-- **print → parse round trip for quantities**: the value comes back identically (under the float
+contract) and the units as in `show_parse_units`, for every value and every valid units. -/
+theorem show_parse_value (pyFloat : List Char → Option Rat) (pyRepr : Rat → List Char)
+    (hc : FloatContract pyFloat pyRepr) (x : UVal) (hv : x.u.sys.valid = true) :
+    ∃ y, parseUnitValueChars pyFloat (showUValChars pyRepr x) = .ok y ∧ y.v = x.v ∧ y.u.dim = x.u.dim ∧
+      Units.eqv y.u x.u = true := by
+  obtain ⟨u', hp, hd, he, _⟩ := show_parse_units x.u hv
+  have hsep : uvStrSep.toList = [' '] := by decide
+  have hjoin : uvUnitTokJoin.toList = [' '] := by decide
+  have hb : isBlank ' ' = true := by decide
+  have htn := hc.nonempty x.v
+  have htb := hc.noBlank x.v
+  refine ⟨⟨x.v, u'⟩, ?_, rfl, hd, he⟩
+  unfold parseUnitValueChars showUValChars
+  rw [hsep]
+  by_cases hu : showUnitsChars x.u = []
+  · -- dimensionless: "value␣" is stripped to "value"
+    rw [hu] at hp ⊢
+    rw [List.append_nil, stripBlank, stripBy_tok_blank isBlank _ htn htb ' ' hb, splitBlank_tok _ htn htb]
+    simp only [hc.roundtrip, joinSep, hp]
+  · have hub := showUnitsChars_noBlank x.u hv
+    obtain ⟨a, as, hta⟩ := List.exists_cons_of_ne_nil htn
+    obtain ⟨z, zs, hzs⟩ : ∃ z zs, showUnitsChars x.u = zs ++ [z] := by
+      rcases List.eq_nil_or_concat (showUnitsChars x.u) with h | ⟨zs, z, h⟩
+      · exact absurd h hu
+      · exact ⟨z, zs, by simpa using h⟩
+    have hstrip : stripBlank (pyRepr x.v ++ [' '] ++ showUnitsChars x.u) = pyRepr x.v ++ [' '] ++ showUnitsChars x.u := by
+      rw [hta, hzs]
+      have := stripBy_ends isBlank a (as ++ [' '] ++ zs) z (htb a (by rw [hta]; simp)) (hub z (by rw [hzs]; simp))
+      simpa [stripBlank, List.append_assoc] using this
+    rw [hstrip, List.append_assoc, List.singleton_append, splitBlank_two _ _ htn htb hu hub ' ' hb]
+    simp only [hc.roundtrip, joinSep, hp]
+
+/-! ## Rejection (text outside the grammar raises)
+
+`s` below is the text after the preprocessing of `parse_units` (`prepUnits`: the `u`→`µ` replace chain,
+which only rewrites the letter `u`, and `strip()`); `reject_embedded_blank` and
+`reject_blank_inside_quantity_units` are stated on the raw text. -/
+
+def startBlock : Block := ⟨puFirstBlockSep, [], []⟩
+
+/-- blanks inside the (stripped) unit text -/
+theorem reject_embedded_blank_core (s : List Char) (hne : s ≠ []) (hb : s.any isBlank = true) :
+    parseUnitsCore s = .error .badSyntax := by
+  have h1 : s.isEmpty = false := by simpa using hne
+  have hg : puRejectsInnerBlank = true := rfl
+  simp [parseUnitsCore, h1, hb, hg]
+
+/-- unknown symbol: a factor whose symbol is none of the 47 supported symbols -/
+theorem reject_unknown_symbol (s : List Char) (hne : s ≠ [])
+    (h : ∃ b ∈ scanBlocks s [] startBlock false, String.ofList b.sym ∉ allSyms) :
+    (parseUnitsCore s).isError = true := by
+  rcases parseUnitsCore_cases s hne with he | ⟨_, he⟩
+  · rw [he]; rfl
+  · obtain ⟨b, hb, hs⟩ := h
+    rw [he]
+    exact finishBlocks_error_of_mem b (addBlock_error_of_unknown b (unitType_none_of_not_mem _ hs)) _ hb
+
+theorem emptySym_rejected (s : List Char) (hne : s ≠ [])
+    (h : ∃ b ∈ scanBlocks s [] startBlock false, b.sym = []) : (parseUnitsCore s).isError = true := by
+  obtain ⟨b, hb, hs⟩ := h
+  refine reject_unknown_symbol s hne ⟨b, hb, ?_⟩
+  rw [hs]
+  decide +kernel
+
+/-- doubled separator: two adjacent separators anywhere -/
+theorem reject_doubled_separator (a r : List Char) (c1 c2 : Char) (h1 : c1 ∈ sepChars) (h2 : c2 ∈ sepChars) :
+    (parseUnitsCore (a ++ c1 :: c2 :: r)).isError = true :=
+  emptySym_rejected _ (by simp) (scan_emptySym_adjacent a c1 c2 r (by simpa using h1) (by simpa using h2) _ _ _)
+
+/-- dangling separator: at the start or at the end -/
+theorem reject_dangling_separator (a : List Char) (c : Char) (hc : c ∈ sepChars) :
+    (parseUnitsCore (c :: a)).isError = true ∧ (parseUnitsCore (a ++ [c])).isError = true :=
+  ⟨emptySym_rejected _ (by simp) (scan_emptySym_leading_sep c a (by simpa using hc) _),
+   emptySym_rejected _ (by simp) (scan_emptySym_trailing a c (by simpa using hc) _ _ _)⟩
+
+/-- misplaced exponent / fractional exponent: an exponent character (digit or `-`) at the start of a
+factor — `"2m"`, `"-1m"`, and the `5` of `"m1.5"`, whose `.` is a separator -/
+theorem reject_exponent_first (a r : List Char) (c d : Char) (hc : c ∈ sepChars) (hd : d ∈ expChars) :
+    (parseUnitsCore (d :: r)).isError = true ∧ (parseUnitsCore (a ++ c :: d :: r)).isError = true := by
+  have hds : sepChars.contains d = false := (expChars_props d hd).2.1
+  exact ⟨emptySym_rejected _ (by simp) (scan_emptySym_exp_first d r (by simpa using hd) hds _ _),
+    emptySym_rejected _ (by simp) (scan_emptySym_sep_exp a c d r (by simpa using hc) (by simpa using hd) hds _ _ _)⟩
+
+theorem reject_fractional_exponent (a r : List Char) (d : Char) (hd : d ∈ expChars) :
+    (parseUnitsCore (a ++ '.' :: d :: r)).isError = true :=
+  (reject_exponent_first a r '.' d (by decide) hd).2
+
+/-- misplaced exponent: anything but digits (and `_` between digits) after an exponent character inside
+a factor — `"m2s"`, `"m2-"`, `"m1,5"`, `"m2^3"`, `"m1e2"` -/
+theorem reject_text_after_exponent (a r : List Char) (d y : Char) (hd : d ∈ expChars)
+    (hy : y ∉ sepChars) (hy1 : y.isDigit = false) (hy2 : y ≠ '_') :
+    (parseUnitsCore (a ++ d :: y :: r)).isError = true := by
+  rcases parseUnitsCore_cases (a ++ d :: y :: r) (by simp) with he | ⟨hnb, he⟩
+  · rw [he]; rfl
+  · rw [he]
+    obtain ⟨b, hb, h, t, hbe, hyt⟩ := scan_after_exp a d y r (by simpa using hd) (expChars_props d hd).2.1
+      (by simpa using hy) [] startBlock false
+    have hbl : ∀ c ∈ h :: t, isBlank c = false := by
+      intro c hc
+      have := scan_chars_from_text (fun c => isBlank c = false) _ [] startBlock false (by simp) (by simp [startBlock]) hnb b hb c
+      exact this (by rw [hbe]; simp only [List.mem_append]; exact Or.inr hc)
+    show (finishBlocks (scanBlocks (a ++ d :: y :: r) [] startBlock false)).isError = true
+    rw [finishBlocks_error_of_badExp _ b hb (by rw [hbe]; simp) (by rw [hbe]; exact pyInt_none_of_bad_tail h t hbl y hyt hy1 hy2)]
+    rfl
+
 example : parseUnitsChars (showUnitsChars ⟨⟨"km", "h", "mol"⟩, ⟨-12, 1, 105⟩⟩) =
     .ok ⟨⟨"km", "h", "mol"⟩, ⟨-12, 1, 105⟩⟩ := by decide +kernel
 example : showUnitsChars ⟨⟨"km", "h", "mol"⟩, ⟨-12, 1, 105⟩⟩ = "km-12.h.mol105".toList := by decide +kernel
